@@ -371,7 +371,7 @@ func (c03) Gen(rng *rand.Rand, tier string, i int) *sim.Scenario {
 	if i%2 == 0 {
 		return genEngineScenario("C03", rng, engineOpts{serial: chance(rng, 0.5), multiDest: true, late: true, bigTTL: 0.1, outOfRange: 0.1})
 	}
-	o := &wireOpts{variants: AllVariants, bigTTL: 0.15, silentProb: 0.4, dupProb: 0.2, lossProb: 0.05, lateProb: 0.15, overtake: true, noDest: 0.3, destForms: false}
+	o := &wireOpts{variants: AllVariants, bigTTL: 0.15, silentProb: 0.4, dupProb: 0.2, lossProb: 0.05, lateProb: 0.15, overtake: true, noDest: 0.3, destForms: true}
 	wr := genWireRun(rng, o, 0, "c0")
 	return scenarioFor("C03", rng, []*wireRun{wr})
 }
